@@ -36,6 +36,9 @@ def ctor_args(case):
     s, e = list(case["sample"]), list(case["edges"])
     if how in ("sample", "both"):
         s = np.array(s)
+        dt = case.get("np_dtype")
+        if dt and all(isinstance(v, int) and 0 <= v < 2 ** 15 for v in case["sample"]):
+            s = np.array(case["sample"], dtype=dt)          # event counts as an unsigned / small integer array
     if how in ("edges", "both"):
         e = np.array(e)
     return s, e
@@ -245,6 +248,8 @@ def gen_case(rng, small=False, decimal=False):
     case = {"sample": sample, "edges": edges}
     if rng.random() < 0.3:
         case["np"] = rng.choice(["sample", "edges", "both", "queries"])      # numpy arrays / numpy scalars as arguments
+        if case["np"] in ("sample", "both") and rng.random() < 0.6:
+            case["np_dtype"] = rng.choice(["uint8" if all(isinstance(v, int) and 0 <= v < 256 for v in sample) else "uint16", "uint16", "uint32", "uint64", "int16", "int32"])
     if rng.random() < 0.3:
         case["decoy"] = True          # another object is built in between and the caller overwrites its sample container
     case["queries"] = default_queries(sample)
